@@ -448,7 +448,9 @@ func c09Exec(conf c09Conf, ops []c09Op, baseDir string) (viol *core.Violation, n
 			got := sys.st.GetVersioned(op.N, k)
 			want, ok := m.versions[op.N-1][op.K]
 			cur := int64(len(m.versions))
-			retained := op.N >= cur-conf.Recent
+			// the documented rotation schedule (config.ChainStateRotationCfg): the last recent+1 versions persist; with
+			// every >= 1 and cycles == 0 every every-th version persists for good ("keep every every")
+			retained := op.N >= cur-conf.Recent || (conf.Every >= 1 && conf.Cycles == 0 && op.N%conf.Every == 0)
 			if ok && string(got) != want {
 				if len(got) == 0 && !retained {
 					continue // version may have been rotated out
